@@ -96,16 +96,16 @@ class TracepointConfigService:
         Keep the limits of the tracepoints a new config repeats unchanged.
 
         The service sends the whole config when anything in it changes. A tracepoint that is in the old and in the new
-        config (same id, same kind of action, same condition and arguments) stays installed: what it has used of its
-        fire count, and the time it last fired, are carried over to the new action.
+        config (same id, same place, same kind of action, same condition and arguments) stays installed: what it has
+        used of its fire count, and the time it last fired, are carried over to the new action.
         """
-        old_actions = [action for trigger in old_config or [] for action in trigger.actions]
+        old_actions = [(trigger.id, action) for trigger in old_config or [] for action in trigger.actions]
         for trigger in new_config or []:
             for action in trigger.actions:
-                for old in old_actions:
-                    if old.action_type == action.action_type and old == action:
+                for place, old in old_actions:
+                    if place == trigger.id and old.action_type == action.action_type and old == action:
                         action.continue_from(old)
-                        old_actions.remove(old)
+                        old_actions.remove((place, old))
                         break
 
     def __trigger_update(self, old_hash, old_config):
